@@ -26,6 +26,14 @@ PROPS["C14"] = {
                     "regular expressions ^N+ and N+$ behave as documented on newline-free strings"],
 }
 
+PROPS["C03"] = {
+    "level": "proof",
+    "text": "Every read-modifying function is proved to return the exact documented slice of its input record (sequence and "
+            "qualities sliced alike), and the adapter actions to keep/mask/lowercase exactly the remainder interval.",
+    "note": "Trusted: dnaio record slicing contract; str.upper/lower; statistics updates do not touch reads.",
+    "assumptions": ["match objects are immutable after construction (heap-by-field model of lists of matches)"],
+}
+
 _PENDING = "check not built yet in this revision (see DESIGN.md section 7 for the build order)"
 NOT_APPLICABLE = {
     "C12": "quantifies over fault sequences, crash points and schedules and contains a liveness clause; malformed-input detection "
